@@ -123,21 +123,22 @@ class ClassInfo:
 
 
 class ModuleInfo:
-    def __init__(self, name: str, text: str, path: str):
+    def __init__(self, name: str, text: str, path: str, tree: Optional[ast.Module] = None, log: Optional[List[str]] = None):
         self.name = name
         self.text = text
         self.path = path
+        restored = tree is not None
         try:
-            self.tree = ast.parse(text)
+            self.tree = tree if tree is not None else ast.parse(text)
         except SyntaxError as e:
             raise AnalysisError('cannot parse %s: %s' % (path, e))
-        self.decomposition_log: List[str] = []
+        self.decomposition_log: List[str] = list(log or [])
         if name == 'yatiml' or name.startswith('yatiml.'):
             from .normalize import normalize
             from .inline import canonical_decomposition
             self._tree_id = id(self.tree)
             if not os.environ.get('SA_NO_INLINE'):
-                self.decomposition_log = canonical_decomposition(self.tree, name)
+                self.decomposition_log += canonical_decomposition(self.tree, name, restored=restored)
             self.tree = normalize(self.tree)
         self.sha256 = hashlib.sha256(text.encode()).hexdigest()
         self.imports: Dict[str, str] = {}     # local name -> dotted target
@@ -220,9 +221,24 @@ class Program:
                  repo: str = REPO):
         self.repo = repo
         self.modules: Dict[str, ModuleInfo] = {}
+        trees: Dict[str, ast.Module] = {}
+        logs: Dict[str, List[str]] = {}
+        if not os.environ.get('SA_NO_INLINE'):
+            # canonical decomposition, program level: renamed functions first (per module), then functions that moved to another module
+            from . import inline
+            for name, text in sources.items():
+                rel = name.replace('.', '/') + ('.py' if name != 'yatiml' else '/__init__.py')
+                try:
+                    trees[name] = ast.parse(text)
+                except SyntaxError as e:
+                    raise AnalysisError('cannot parse %s: %s' % (rel, e))
+                inline.PROTECTED[id(trees[name])] = set()
+                logs[name] = inline.restore_renamed(trees[name], name)
+            for name, extra in inline.restore_cross_module(trees).items():
+                logs[name] = logs.get(name, []) + extra
         for name, text in sources.items():
             rel = name.replace('.', '/') + ('.py' if name != 'yatiml' else '/__init__.py')
-            self.modules[name] = ModuleInfo(name, text, rel)
+            self.modules[name] = ModuleInfo(name, text, rel, trees.get(name), logs.get(name))
         ys = yaml_sources if yaml_sources is not None else read_yaml_sources()
         for name, text in ys.items():
             rel = 'site-packages/' + name.replace('.', '/') + ('.py' if name != 'yaml' else '/__init__.py')
